@@ -1,51 +1,15 @@
-"""Per-property configuration of the driver: which tests run in which tier, how many
-cases/shards, the non-triviality rule text, and generator classes that must occur."""
+"""Per-property configuration of the driver lives in cfg/<ID>.py (CHECK = driver config: which tests
+run in which tier, case counts/shards, the non-triviality rule text, generator classes that must occur;
+TEXT = MANIFEST texts)."""
+import glob, importlib.util, os
 
-CHECKS = {
-    "C01": {
-        "rule": ("rapid-generated histories of the 16 Filespace ops on a fresh memfs root and on child views "
-                 "(model-aware path choice, noisy spellings), each op compared with the tree model and the whole "
-                 "tree walked after every step. Non-trivial: >=3 executed ops, >=2 different mutating op kinds that "
-                 "succeeded below one common top-level name, and >=1 query after them. Distinct = distinct case JSON (FNV-64)."),
-        "assumptions": ["reference tree model of DESIGN.md section 3 is the contract", "error presence compared, never texts",
-                        "ops outside the fixed domain (copy onto existing destination, remove of a view root, escaping paths) are skipped"],
-        "essential_labels": {"all": ["via-child-view", "root-spelling", "inner-dotdot", "caller-scribbles", "writer"]},
-        "tiers": {
-            "quick": [{"test": "^TestProp$", "checks": 12000, "shards": 4, "timeout": 240}],
-            "thorough": [{"test": "^TestProp$", "checks": 40000, "shards": 16, "timeout": 3000}],
-        },
-    },
-    "C02": {
-        "rule": ("rapid-generated histories restricted to the property's preconditions (model-gated), run in lock-step on a "
-                 "backend pair drawn from {mem, disk, mem child view, disk child view}; per-step results and whole trees compared "
-                 "between the two backends; 35% of cases end with one op outside the preconditions judged per backend (no panic, "
-                 "change confined to addressed paths); host sentinels next to the disk root checked. Non-trivial: a disk backend "
-                 "in the pair, >=1 mutation later read back at the same path, and >=1 copy or remove. Distinct = distinct case JSON."),
-        "assumptions": ["preconditions as stated in C02 (source exists with the kind the op names, destination parent exists, copy destination absent, remove target exists, view target is a directory)",
-                        "ReadDir compared as a set; Lstat compared on IsDir, file Size and Name (not for the root)"],
-        "essential_labels": {"all": ["has-CopyDirectory", "has-Writer", "has-outside-precondition-op", "via-child-view"]},
-        "tiers": {
-            "quick": [{"test": "^TestProp$", "checks": 2500, "shards": 6, "timeout": 240}],
-            "thorough": [{"test": "^TestProp$", "checks": 6000, "shards": 16, "timeout": 3000}],
-        },
-    },
-    "C03": {
-        "rule": ("(a) exhaustive: every path of 1..N segments over {in,out,.,..,''} with/without leading '/', x 22 op forms (13 single-path ops; "
-                 "3 copy ops with the path as first, second and both arguments) x 18 view kinds (memory/disk child and child-of-child, SubFS, "
-                 "read-only mask + child, encrypted + child, cache + child, mixed nestings); each call on a fresh fixture whose parent tree holds marker "
-                 "files outside the view root; (b) rapid: single calls with paths up to 12 segments and sequences of 2-11 calls. Oracle: parent tree "
-                 "outside the view root byte-identical after the call (cache: after Commit), no returned bytes/listing/FileInfo/boolean reveals an "
-                 "outside-only node, views returned by Filespace() are probed too, no panic. Non-trivial: a path argument climbs above the view root."),
-        "assumptions": ["escaping paths may be rejected or clamped into the root; both are accepted", "removing a view's own root directory is not judged",
-                        "encrypted kinds: outside files are encrypted with the same key so that an escaping read would be visible"],
-        "essential_labels": {"all": ["escaping", "inside-control", "kind:cache-child-mem", "kind:disk-child", "kind:ro-child-mem", "kind:enc-child-mem"]},
-        "tiers": {
-            "quick": [{"test": "^TestEnum$", "shards": 8, "timeout": 280},
-                      {"test": "^TestPropLong$", "checks": 6000, "shards": 2, "timeout": 240, "seed_offset": 100},
-                      {"test": "^TestPropSeq$", "checks": 2500, "shards": 2, "timeout": 240, "seed_offset": 200}],
-            "thorough": [{"test": "^TestEnum$", "shards": 16, "timeout": 3400},
-                         {"test": "^TestPropLong$", "checks": 40000, "shards": 8, "timeout": 3000, "seed_offset": 100},
-                         {"test": "^TestPropSeq$", "checks": 20000, "shards": 8, "timeout": 3000, "seed_offset": 200}],
-        },
-    },
-}
+CHECKS = {}
+TEXTS = {}
+for _f in sorted(glob.glob(os.path.join(os.path.dirname(os.path.abspath(__file__)), "cfg", "C*.py"))):
+    _pid = os.path.basename(_f)[:-3]
+    _spec = importlib.util.spec_from_file_location("cfg_" + _pid, _f)
+    _m = importlib.util.module_from_spec(_spec)
+    _spec.loader.exec_module(_m)
+    CHECKS[_pid] = _m.CHECK
+    if getattr(_m, "TEXT", None):
+        TEXTS[_pid] = _m.TEXT
